@@ -4,7 +4,7 @@ import gens, blk, compcases as cc
 from capi import Lib, Buf
 from ctypes import c_int, byref
 
-THEOREMS = ["C06_fast_generic_strict", "C06_fast_extState_strict", "C06_fastReset_history_strict", "C06_destSize_strict", "C06_hc_mid_strict", "C06_hc_mid_destSize_strict", "C06_hc_chain_strict"]
+THEOREMS = ["C06_fast_generic_strict", "C06_fast_extState_strict", "C06_fastReset_history_strict", "C06_destSize_strict", "C06_hc_mid_strict", "C06_hc_mid_destSize_strict", "C06_hc_chain_strict", "C06_hc_opt_strict"]
 CORRESPONDENCE = [cc.MID_CORR, cc.CHAIN_CORR, cc.CHAIN_SEARCH_CORR,
                   "Model.FastApi one-shot entry points == liblz4 (bytes, return value, context) on the same cases"]
 ORACLES = ["block", "mid", "chain"]
@@ -13,7 +13,7 @@ RULE = ("every successful output of {default, fast, extState, fastReset history,
         "extracted from the Coq block specification WITH the end-of-block restrictions (strict_valid) and the right history; "
         "non-trivial = block with >= 1 match; distinct = distinct (input, entry point, parameter, capacity)")
 TRUSTED = ["Spec/BlockSpec.v renders doc/lz4_Block_format.md (offset range, history reach, last 5 literals, last match >= 12 bytes from the end)",
-           "HC levels 1-2 (LZ4MID) and 3-9 (hash chain) one-shot entry points are modelled and tied; HC levels 10-12 and the streaming variants: direct oracle only (streaming/dictionary theorems: C11/C12)"]
+           "HC levels 1-2 (LZ4MID), 3-9 (hash chain) and 10-12 (optimal parser) one-shot entry points are modelled and tied; the streaming variants: direct oracle only (streaming/dictionary theorems: C11/C12)"]
 ASSUMPTIONS = ["64-bit little-endian target"]
 
 def build(tier):
